@@ -84,6 +84,17 @@ check("C07", level="fault_enumeration", engine="nx",
       note=NX_NOTE + " Death is modelled at libc-call granularity on an in-memory file system; real signals, process groups "
            "and kernel write atomicity are outside this engine (planned: engine B).", design_ref="5/C07")
 
+check("C08", level="model_checking", engine="lx",
+      technique="explicit-state BFS over log operation sequences x every tear offset x continuations on the real BuildLog, independent reference reader",
+      text="All sequences of log operations up to depth 2 (quick) / 3 (thorough) from the alphabet, every byte offset of every "
+           "reached file as a tear point, every continuation of length <= 2 after the tear; after each step the real "
+           "BuildLog's loaded state is compared with an independent last-wins reader of the file bytes and with the "
+           "per-operation expectations (acknowledged records visible, only dead entries dropped, restat touches only mtimes, "
+           "unsupported versions discarded).",
+      note="Trusted base: src/common/simfs.cc (in-memory files behind libc), src/common/logparse.h (reference reader), the "
+           "operation oracles in src/lx/lx_buildlog.cc. Bounds: 3 edges (one with two outputs, one with a space, one 300 KiB "
+           "name), 2 command hashes, small mtime domain; depth and tear caps as reported.", design_ref="5/C08")
+
 ALL = ["C%02d" % i for i in range(1, 21)]
 
 
